@@ -177,8 +177,6 @@ func (sl *SubLine) ValidateWithContext(ctx context.Context) error {
 // provided list of normalizers.
 func (l *Line) Normalize(normalizers tax.Normalizers) {
 	l.Taxes = tax.CleanSet(l.Taxes)
-	l.Discounts = CleanLineDiscounts(l.Discounts)
-	l.Charges = CleanLineCharges(l.Charges)
 	normalizers.Each(l)
 	tax.Normalize(normalizers, l.Identifier)
 	tax.Normalize(normalizers, l.Taxes)
@@ -187,18 +185,22 @@ func (l *Line) Normalize(normalizers tax.Normalizers) {
 	tax.Normalize(normalizers, l.Discounts)
 	tax.Normalize(normalizers, l.Charges)
 	tax.Normalize(normalizers, l.Substituted)
+	// rows may only turn out to be empty once they have been normalised
+	l.Discounts = CleanLineDiscounts(l.Discounts)
+	l.Charges = CleanLineCharges(l.Charges)
 }
 
 // Normalize performs normalization on the subline and embedded objects using the
 // provided list of normalizers.
 func (sl *SubLine) Normalize(normalizers tax.Normalizers) {
-	sl.Discounts = CleanLineDiscounts(sl.Discounts)
-	sl.Charges = CleanLineCharges(sl.Charges)
 	normalizers.Each(sl)
 	tax.Normalize(normalizers, sl.Identifier)
 	tax.Normalize(normalizers, sl.Item)
 	tax.Normalize(normalizers, sl.Discounts)
 	tax.Normalize(normalizers, sl.Charges)
+	// rows may only turn out to be empty once they have been normalised
+	sl.Discounts = CleanLineDiscounts(sl.Discounts)
+	sl.Charges = CleanLineCharges(sl.Charges)
 }
 
 func removeLineIncludedTaxes(line *Line, cat cbc.Code) *Line {
